@@ -39,6 +39,11 @@ def run(ctx):
                 ctx.violation("substitution widened the schema", rp)
         if len(samples) < 4 and isinstance(c.value, (list, dict)) and c.value:
             samples.append({"schema": c.ssrc, "value": c.vsrc(), "result": repr(c.result).replace("\n", " ")[:160]})
+    for c in ssuite.bad_results(cases)[:5]:
+        rp = c.replay_dict()
+        rp.update(observed="substitute returned a schema with ill-typed props: " + c.unmodelled[:300],
+                  expected="a schema the DSL can build", theorem_or_suite="substitute correspondence")
+        ctx.violation("substitute returned an ill-formed schema object", rp)
     modelled = [c for c in cases if c.term is not None]
     bad = common.eval_cases(ctx.workdir, "c05", [c.term for c in modelled], "subcase", "subcase_ok",
                             extra_requires="Require Import D42.FromNative D42.Substitute D42.CaseSubst.")
